@@ -24,7 +24,9 @@ Vocabulary
       is the Python float of the same value (assumed contract NpFloat.item); numpy.array([x, y, z]) is the 3-vector.
 
 The two top-level contracts state the distance test in two independent forms (v1: squared distance < 2.4^2, v2: norm < 2.4);
-lemma same_predicate_of_coordinates proves that they are the same predicate of the two atoms' coordinates.
+lemma same_predicate_of_coordinates proves that they are the same predicate of the two atoms' coordinates.  The squared distance
+is the abbreviation sqdist with the explicit definition sqdist_definition (a "definition" lemma: not proved, conservative),
+unfolded for one pair of points at a time - inside the quantified v1 clause the polynomial itself made z3 wander (3 s .. timeout).
 """
 from contracts.externals import NUMPY
 from pyvc.values import VRec
